@@ -186,7 +186,10 @@ def run(chk, replay=None):
                             ("MC_PeerTable_sync_remove_2threads", True, "entry held, blocking removal, 2 worker threads: a worker is blocked but everything terminates"),
                             ("MC_PeerTable_sync_remove_1thread", False, "entry held across the await and blocking removal, 1 worker thread (the pinned tree): the runtime is stuck for good"),
                             ("MC_PeerTable_held_suspended_owner", False, "entry held across the await: a suspended task owns the bucket (what makes any blocking table operation - stream-end hook, Drop - unsafe)"),
-                            ("MC_PeerTable_reach", False, "reachability companion: a handshake really queues behind a held entry")):
+                            ("MC_PeerTable_reach", False, "reachability companion: a handshake really queues behind a held entry"),
+                            ("MC_PeerTable_pinned_2threads", False, "the design before fix 47c1df1 (asynchronous registration, blocking forgetting) on a scheduler that queues a woken task in the slot of the worker that woke it (tokio): a second blocking operation of that worker's task waits for ever for the owner in its own slot (F40)"),
+                            ("MC_PeerTable_allsync_pinned_1thread", True, "the design since fix 47c1df1 (every table operation blocking and brief, none awaited), pinned wake-ups, 1 worker thread: never stuck, the owner of a bucket is never suspended, every task terminates"),
+                            ("MC_PeerTable_allsync_pinned_2threads", True, "the design since fix 47c1df1, pinned wake-ups, 2 worker threads")):
         r = vlib.tlc("PeerTable", cfg + ".cfg", chk.wd, timeout=300, coverage=must)
         (chk.model_must_hold if must else chk.model_must_fail)(r, "PeerTable " + what)
     for cfg, must, what in (("MC_Registry_ok", True, "the repaired design (the steps of a registration / of forgetting a connection run under the lock of the peer's table bucket; a stream let go of while it is polled is not put back), 2 connections of one identity: at every quiescent point the peer table, the rotation and the fair queue hold the same connection or none, it is whole and not ended, and the connection that registered last is not lost"),
